@@ -81,6 +81,9 @@ type absScenario struct {
 	// it unknown).  fieldOK restricts which FieldAddr count (nil = by name only).
 	tracked map[string]absVal
 	fieldOK func(fa *ssa.FieldAddr) bool
+	// marks: executing an instruction for which marks returns (name, true) records "@name" = true in
+	// the path state (for must-pass-through questions: reach a return without the mark).
+	marks func(in ssa.Instruction) (string, bool)
 	// onStore may refine the value recorded for a tracked field (e.g. "a stored parameter type is non-nil").
 	onStore func(field string, v absVal) absVal
 	// calls lets the caller interpret calls (own predicate helpers): return ok=false
@@ -92,6 +95,8 @@ type absPath struct {
 	phi   map[*ssa.Phi]absVal
 	state map[string]absVal
 	cells map[*ssa.Alloc]absVal // local variables that live in memory (captured or address-taken)
+	// refine: what a branch already decided about an otherwise unknown value (x != nil taken ⇒ x is non-nil)
+	refine map[ssa.Value]absVal
 }
 
 func (p *absPath) clone() *absPath {
@@ -101,6 +106,12 @@ func (p *absPath) clone() *absPath {
 	}
 	for k, v := range p.cells {
 		q.cells[k] = v
+	}
+	if len(p.refine) > 0 {
+		q.refine = make(map[ssa.Value]absVal, len(p.refine))
+		for k, v := range p.refine {
+			q.refine[k] = v
+		}
 	}
 	for k, v := range p.state {
 		q.state[k] = v
@@ -117,6 +128,9 @@ func (p *absPath) key() string {
 		if v.k != absUnknown {
 			ks = append(ks, k.Name()+"="+v.String())
 		}
+	}
+	for k, v := range p.refine {
+		ks = append(ks, "~"+k.Name()+"="+v.String())
 	}
 	sort.Strings(ks)
 	return strings.Join(ks, ",")
@@ -166,6 +180,9 @@ func (e *absEval) eval(v ssa.Value, path *absPath, depth int) absVal {
 		}); ok {
 			return a
 		}
+	}
+	if r, ok := path.refine[v]; ok {
+		return r
 	}
 	switch x := v.(type) {
 	case *ssa.Const:
@@ -411,6 +428,15 @@ func absReachN(fn *ssa.Function, sc *absScenario, goal func(ret *ssa.Return, eva
 		if e.steps > 200000 {
 			return
 		}
+		// the instructions of this block are about to be executed (again): what an earlier
+		// iteration learned about their values no longer applies
+		if len(path.refine) > 0 {
+			for _, in := range b.Instrs {
+				if v, ok := in.(ssa.Value); ok {
+					delete(path.refine, v)
+				}
+			}
+		}
 		// φ-values for this entry edge
 		if prev != nil {
 			pi := -1
@@ -452,6 +478,11 @@ func absReachN(fn *ssa.Function, sc *absScenario, goal func(ret *ssa.Return, eva
 		}
 		e.seen[key] = true
 		for _, in := range b.Instrs {
+			if sc.marks != nil {
+				if name, ok := sc.marks(in); ok {
+					path.state["@"+name] = aBool(true)
+				}
+			}
 			switch x := in.(type) {
 			case *ssa.Store:
 				if al, ok := x.Addr.(*ssa.Alloc); ok {
@@ -486,8 +517,11 @@ func absReachN(fn *ssa.Function, sc *absScenario, goal func(ret *ssa.Return, eva
 				case c.k == absBool && !c.b:
 					walk(b.Succs[1], b, path)
 				default:
-					walk(b.Succs[0], b, path.clone())
-					walk(b.Succs[1], b, path)
+					pt, pf := path.clone(), path
+					refineBranch(x.Cond, pt, true)
+					refineBranch(x.Cond, pf, false)
+					walk(b.Succs[0], b, pt)
+					walk(b.Succs[1], b, pf)
 				}
 				return
 			case *ssa.Jump:
@@ -498,6 +532,42 @@ func absReachN(fn *ssa.Function, sc *absScenario, goal func(ret *ssa.Return, eva
 	}
 	walk(fn.Blocks[0], nil, start)
 	return found
+}
+
+// refineBranch records what taking the given side of an undecided condition implies:
+// `x != nil` / `x == nil` for an unknown x, and the truth value of the condition itself.
+func refineBranch(cond ssa.Value, path *absPath, taken bool) {
+	if path.refine == nil {
+		path.refine = map[ssa.Value]absVal{}
+	}
+	path.refine[cond] = aBool(taken)
+	switch c := cond.(type) {
+	case *ssa.UnOp:
+		if c.Op == token.NOT {
+			refineBranch(c.X, path, !taken)
+		}
+	case *ssa.BinOp:
+		if c.Op != token.EQL && c.Op != token.NEQ {
+			return
+		}
+		x, y := c.X, c.Y
+		if isNilConst(x) {
+			x, y = y, x
+		}
+		if !isNilConst(y) {
+			return
+		}
+		isNil := (c.Op == token.EQL) == taken
+		v := aNonNil
+		if isNil {
+			v = aNil
+		}
+		path.refine[x] = v
+		// the same value seen through an interface conversion
+		if mi, ok := x.(*ssa.MakeInterface); ok {
+			path.refine[mi.X] = v
+		}
+	}
 }
 
 // successGoal: the return's error-typed results are all nil (constant, or evaluated nil).
